@@ -970,6 +970,11 @@ func (ro *RedisOutput) sendCmdsBatch(replayWait usync.WaitCloser, conn client.Re
 	}
 
 	sendFuncOnce := func(shouldInTransaction, shouldUpdateCP bool, lastOffset int64) error {
+		if lastOffset < 0 {
+			// no stream item has been consumed yet, there is no position to store:
+			// never replace a stored checkpoint by the undefined offset
+			shouldUpdateCP = false
+		}
 		if len(cmdQueue) == 0 && shouldInTransaction && !shouldUpdateCP {
 			return nil
 		}
